@@ -165,6 +165,50 @@ pub fn replay(args: &[String]) -> i32 {
             }
         }
     }
+    // "the total always equals the sum of the per-case results kept in the order given" for LONG
+    // vectors of EXTREME values: the values are drawn so that the in-order running sum never leaves
+    // i64 (any regrouping of the additions may), and for floats so that the order of additions
+    // matters (1e16 + 1 + 1 + ... ); the expected total is the in-order sum
+    let mut rng = run_rng(0, 0xC15, 77);
+    for k in 0..300u64 {
+        let len = [8usize, 9, 10, 16, 17, 31, 33, 64, 65, 100][rng.random_range(0..10)];
+        let mut run: i128 = 0;
+        let vals: Vec<i64> = (0..len)
+            .map(|_| {
+                let (lo, hi) = (i128::from(i64::MIN) - run.min(0), i128::from(i64::MAX) - run.max(0));
+                let v: i128 = match rng.random_range(0..10) {
+                    0 | 1 => hi - i128::from(rng.random_range(0..3u8)),
+                    2 | 3 => lo + i128::from(rng.random_range(0..3u8)),
+                    _ => i128::from(rng.random_range(-9i64..10)),
+                };
+                let v = v.clamp(lo.max(i128::from(i64::MIN)), hi.min(i128::from(i64::MAX)));
+                run += v;
+                i64::try_from(v).expect("clamped")
+            })
+            .collect();
+        let want = i64::try_from(run).expect("in range");
+        let floats: Vec<f64> = (0..len).map(|j| if j % 11 == 0 { 1e16 } else if rng.random_range(0..4) == 0 { -1e16 } else { 1.0 }).collect();
+        let fwant = floats.iter().fold(0.0f64, |a, x| a + x);
+        let ob = guarded(|| {
+            use ordered_float::OrderedFloat;
+            let a: TestResults<Score<i64>> = vals.clone().into();
+            let b: TestResults<Error<i64>> = vals.iter().copied().collect();
+            let c: TestResults<Score<OrderedFloat<f64>>> = floats.iter().map(|x| OrderedFloat(*x)).collect();
+            let d: TestResults<Error<OrderedFloat<f64>>> = floats.iter().map(|x| OrderedFloat(*x)).collect::<Vec<_>>().into();
+            json!({"score_total": a.total_result.0, "error_total": b.total_result.0,
+                   "float_score_total_bits": c.total_result.0 .0.to_bits().to_string(),
+                   "float_error_total_bits": d.total_result.0 .0.to_bits().to_string()})
+        })
+        .unwrap_or_else(|m| json!({"panic": m}));
+        let exp = json!({"score_total": want, "error_total": want, "float_score_total_bits": fwant.to_bits().to_string(),
+                         "float_error_total_bits": fwant.to_bits().to_string()});
+        n += 1;
+        if ob != exp {
+            bad += 1;
+            out.line(&json!({"kind": "mismatch", "case": {"case": {"t": "long_total", "kind": "score", "r": vals, "floats": floats, "k": k}, "exp": exp},
+                             "on": "TestResults total of a long vector", "observed": ob}));
+        }
+    }
     out.line(&json!({"kind": "summary", "cases": n, "mismatches": bad}));
     out.finish();
     0
